@@ -1772,7 +1772,12 @@ func (t *http2Client) reader(errCh chan<- error) {
 		case *http2.PingFrame:
 			t.handlePing(frame)
 		case *http2.GoAwayFrame:
-			errClose = t.handleGoAway(frame)
+			if errClose = t.handleGoAway(frame); errClose != nil {
+				// A malformed GOAWAY (even stream ID, or a last-stream-id larger
+				// than a previous one) is a connection error: stop reading and
+				// close the transport.
+				return
+			}
 		case *http2.WindowUpdateFrame:
 			t.handleWindowUpdate(frame)
 		default:
